@@ -71,7 +71,7 @@ package soyhtml
 // is written by evalPrint itself.
 //@ func (*state).evalPrint
 //@   like stateMethod
-//@   trustedensures[frames-kept;C02] len(s.context) == old(len(s.context)) && forall(i, 0, len(s.context), s.context[i].vars == old(s.context[i].vars) && unchangedmap(s.context[i].vars)) && forall(i, 0, len(s.context), old(s.context)[i].vars == old(s.context[i].vars))
+//@   trustedensures[frames-kept;C02] len(s.context) == old(len(s.context)) && forall(i, 0, len(s.context), s.context[i].vars == old(s.context[i].vars) && s.context[i].entered == old(s.context[i].entered) && unchangedmap(s.context[i].vars)) && forall(i, 0, len(s.context), old(s.context)[i].vars == old(s.context[i].vars)) && otherarraysunchanged(s.context) && (base(s.context) == old(base(s.context)) || base(s.context) >= old(allocmark()))
 //@   props C03 C08 C09
 //@   nosafety
 //@   ghost mode ast.AutoescapeType = 0
@@ -249,7 +249,7 @@ package soyhtml
 
 //@ func (*state).evalMsgParts
 //@   like stateMethod
-//@   trustedensures[frames-kept;C02] len(s.context) == old(len(s.context)) && forall(i, 0, len(s.context), s.context[i].vars == old(s.context[i].vars) && unchangedmap(s.context[i].vars)) && forall(i, 0, len(s.context), old(s.context)[i].vars == old(s.context[i].vars))
+//@   trustedensures[frames-kept;C02] len(s.context) == old(len(s.context)) && forall(i, 0, len(s.context), s.context[i].vars == old(s.context[i].vars) && s.context[i].entered == old(s.context[i].entered) && unchangedmap(s.context[i].vars)) && forall(i, 0, len(s.context), old(s.context)[i].vars == old(s.context[i].vars)) && otherarraysunchanged(s.context) && (base(s.context) == old(base(s.context)) || base(s.context) >= old(allocmark()))
 //@   props C12 C08 C09
 //@   nosafety
 //@   modifies *
@@ -332,7 +332,7 @@ package soyhtml
 // built by the entry state names the outermost failing command.
 //@ func (*state).eval
 //@   like stateMethod
-//@   trustedensures[frames-kept;C02] len(s.context) == old(len(s.context)) && forall(i, 0, len(s.context), s.context[i].vars == old(s.context[i].vars) && unchangedmap(s.context[i].vars)) && forall(i, 0, len(s.context), old(s.context)[i].vars == old(s.context[i].vars))
+//@   trustedensures[frames-kept;C02] len(s.context) == old(len(s.context)) && forall(i, 0, len(s.context), s.context[i].vars == old(s.context[i].vars) && s.context[i].entered == old(s.context[i].entered) && unchangedmap(s.context[i].vars)) && forall(i, 0, len(s.context), old(s.context)[i].vars == old(s.context[i].vars)) && otherarraysunchanged(s.context) && (base(s.context) == old(base(s.context)) || base(s.context) >= old(allocmark()))
 //@   props C19 C08 C09
 //@   nosafety
 //@   modifies *
@@ -420,7 +420,7 @@ package soyhtml
 //@   nosafety
 //@   ensures[pushes-owned-frame] scopeOK(*s) && len(*s) == old(len(*s)) + 1 && fresh((*s)[len(*s)-1].vars)
 //@   ensures[realloc-when-full] old(len(*s) == cap(*s)) ==> fresh(*s) && unchangedarray(*s)
-//@   ensures[keeps-lower-frames;C02] forall(i, 0, old(len(*s)), (*s)[i].vars == old((*s)[i].vars))
+//@   ensures[keeps-lower-frames;C02] forall(i, 0, old(len(*s)), (*s)[i].vars == old((*s)[i].vars)) && forall(i, 0, old(len(*s)), (*s)[i].entered == old((*s)[i].entered)) && !(*s)[len(*s)-1].entered
 //@   ensures[new-frame-allocated;C02] (*s)[len(*s)-1].vars < allocmark()
 //@ func (*scope).pop
 //@   props C08 C09
@@ -433,17 +433,21 @@ package soyhtml
 //@   mapwrites owned
 //@   nosafety
 //@   requires[top-frame-owned;C02] scopeOK(s)
+//@   ensures[binds-in-top-frame;C02] haskey(s[len(s)-1].vars, k) && s[len(s)-1].vars[k] == v
 //@ func (scope).lookup
 //@   like renderFn
 //@   nosafety
+//@   ensures[innermost-binding-wins;C02] forall(i, 0, len(s), haskey(s[i].vars, k) && forall(j, i + 1, len(s), !haskey(s[j].vars, k)) ==> result == s[i].vars[k])
+//@   ensures[unbound-is-undefined;C02] forall(i, 0, len(s), !haskey(s[i].vars, k)) ==> typeis(result, data.Undefined)
 //@   loop 0
-//@     noterm
+//@     invariant[frames-above-lack-key;C02] 0 <= rangeindex + 1 && rangeindex + 1 <= len(s) && forall(j, len(s) - rangeindex - 1, len(s), !haskey(s[j].vars, k))
 //@ func (scope).alldata
 //@   like renderFn
 //@   nosafety
 //@   ensures[capacity-capped] len(result) == cap(result) && len(result) >= 1
+//@   ensures[frames-up-to-template-entry;C02] len(result) <= len(s) && forall(i, 0, len(result), result[i].vars == s[i].vars) && s[len(result)-1].entered && forall(j, len(result), len(s), !s[j].entered)
 //@   loop 0
-//@     noterm
+//@     invariant[frames-above-not-entered;C02] 0 <= rangeindex + 1 && rangeindex + 1 <= len(s) && forall(j, len(s) - rangeindex - 1, len(s), !s[j].entered)
 //@ func (*scope).enter
 //@   props C08 C09
 //@   requires[render-started] renderBase <= allocmark()
@@ -452,51 +456,69 @@ package soyhtml
 //@   nosafety
 //@   requires[non-empty;C02] len(*s) >= 1
 //@   ensures[pushes-owned-frame] scopeOK(*s) && len(*s) == old(len(*s)) + 1
+//@   ensures[marks-template-entry;C02] (*s)[len(*s)-2].entered && !(*s)[len(*s)-1].entered && fresh((*s)[len(*s)-1].vars) && forall(i, 0, old(len(*s)), (*s)[i].vars == old((*s)[i].vars)) && forall(i, 0, old(len(*s)) - 1, (*s)[i].entered == old((*s)[i].entered))
 //@ func (*state).evalMsg
 //@   like stateMethod
-//@   trustedensures[frames-kept;C02] len(s.context) == old(len(s.context)) && forall(i, 0, len(s.context), s.context[i].vars == old(s.context[i].vars) && unchangedmap(s.context[i].vars)) && forall(i, 0, len(s.context), old(s.context)[i].vars == old(s.context[i].vars))
+//@   trustedensures[frames-kept;C02] len(s.context) == old(len(s.context)) && forall(i, 0, len(s.context), s.context[i].vars == old(s.context[i].vars) && s.context[i].entered == old(s.context[i].entered) && unchangedmap(s.context[i].vars)) && forall(i, 0, len(s.context), old(s.context)[i].vars == old(s.context[i].vars)) && otherarraysunchanged(s.context) && (base(s.context) == old(base(s.context)) || base(s.context) >= old(allocmark()))
 //@   nosafety
 //@ func (*state).findPluralNode
 //@   like stateMethod
 //@   nosafety
 //@ func (*state).walkPlural
 //@   like stateMethod
-//@   trustedensures[frames-kept;C02] len(s.context) == old(len(s.context)) && forall(i, 0, len(s.context), s.context[i].vars == old(s.context[i].vars) && unchangedmap(s.context[i].vars)) && forall(i, 0, len(s.context), old(s.context)[i].vars == old(s.context[i].vars))
+//@   trustedensures[frames-kept;C02] len(s.context) == old(len(s.context)) && forall(i, 0, len(s.context), s.context[i].vars == old(s.context[i].vars) && s.context[i].entered == old(s.context[i].entered) && unchangedmap(s.context[i].vars)) && forall(i, 0, len(s.context), old(s.context)[i].vars == old(s.context[i].vars)) && otherarraysunchanged(s.context) && (base(s.context) == old(base(s.context)) || base(s.context) >= old(allocmark()))
 //@   nosafety
 //@ func (*state).walkMsgBody
 //@   like stateMethod
-//@   trustedensures[frames-kept;C02] len(s.context) == old(len(s.context)) && forall(i, 0, len(s.context), s.context[i].vars == old(s.context[i].vars) && unchangedmap(s.context[i].vars)) && forall(i, 0, len(s.context), old(s.context)[i].vars == old(s.context[i].vars))
+//@   trustedensures[frames-kept;C02] len(s.context) == old(len(s.context)) && forall(i, 0, len(s.context), s.context[i].vars == old(s.context[i].vars) && s.context[i].entered == old(s.context[i].entered) && unchangedmap(s.context[i].vars)) && forall(i, 0, len(s.context), old(s.context)[i].vars == old(s.context[i].vars)) && otherarraysunchanged(s.context) && (base(s.context) == old(base(s.context)) || base(s.context) >= old(allocmark()))
 //@   nosafety
 //@ func (*state).evalCall
 //@   like stateMethod
-//@   trustedensures[frames-kept;C02] len(s.context) == old(len(s.context)) && forall(i, 0, len(s.context), s.context[i].vars == old(s.context[i].vars) && unchangedmap(s.context[i].vars)) && forall(i, 0, len(s.context), old(s.context)[i].vars == old(s.context[i].vars))
+//@   trustedensures[frames-kept;C02] len(s.context) == old(len(s.context)) && forall(i, 0, len(s.context), s.context[i].vars == old(s.context[i].vars) && s.context[i].entered == old(s.context[i].entered) && unchangedmap(s.context[i].vars)) && forall(i, 0, len(s.context), old(s.context)[i].vars == old(s.context[i].vars)) && otherarraysunchanged(s.context) && (base(s.context) == old(base(s.context)) || base(s.context) >= old(allocmark()))
 //@   nosafety
 //@   at call (*state).walk#0 assert[callee-binds-in-owned-frame;C08] scopeOK(arg0.context)
+//@   loop 0
+//@     invariant[cd-alldata-len;C02] node.AllData ==> 1 <= nad && nad <= len(s.context) && len(callData) == nad + 1
+//@     invariant[cd-alldata-frames;C02] node.AllData ==> forall(i, 0, nad, callData[i].vars == s.context[i].vars)
+//@     invariant[cd-dataexpr-len;C02] !node.AllData && node.Data != nil ==> len(callData) == 2
+//@     invariant[cd-dataexpr;C02] !node.AllData && node.Data != nil ==> callData[0].vars == dm
+//@     invariant[cd-plain;C02] !node.AllData && node.Data == nil ==> len(callData) == 1
+//@     invariant[cd-top-fresh;C02] len(callData) >= 1 && fresh(callData[len(callData)-1].vars)
+//@     invariant[cd-array-fresh;C02] fresh(callData) && base(callData) != base(s.context)
+//@   ghost nad int = 0
+//@   ghost dm data.Map = nil
+//@   at call (scope).alldata#0 after set nad = len(res)
+//@   at call (scope).alldata#0 after assert[nad-is-innermost-template-entry;C02] 1 <= len(res) && len(res) <= len(s.context) && s.context[len(res)-1].entered && forall(j, len(res), len(s.context), !s.context[j].entered)
+//@   at call soyhtml.newScope#* set dm = arg0
+//@   at call (*state).walk#0 assert[alldata-passes-frames-up-to-template-entry;C02] node.AllData ==> 1 <= nad && nad <= len(s.context) && len(arg0.context) == nad + 2 && forall(i, 0, nad, arg0.context[i].vars == s.context[i].vars)
+//@   at call (*state).walk#0 assert[data-expr-passes-that-map-only;C02] !node.AllData && node.Data != nil ==> len(arg0.context) == 3 && arg0.context[0].vars == dm
+//@   at call (*state).walk#0 assert[plain-call-passes-params-only;C02] !node.AllData && node.Data == nil ==> len(arg0.context) == 2
+//@   at call (*state).walk#0 assert[param-and-body-frames-are-new;C02] fresh(arg0.context[len(arg0.context)-1].vars) && fresh(arg0.context[len(arg0.context)-2].vars)
 //@ func (*state).renderBlock
 //@   like stateMethod
-//@   trustedensures[frames-kept;C02] len(s.context) == old(len(s.context)) && forall(i, 0, len(s.context), s.context[i].vars == old(s.context[i].vars) && unchangedmap(s.context[i].vars)) && forall(i, 0, len(s.context), old(s.context)[i].vars == old(s.context[i].vars))
+//@   trustedensures[frames-kept;C02] len(s.context) == old(len(s.context)) && forall(i, 0, len(s.context), s.context[i].vars == old(s.context[i].vars) && s.context[i].entered == old(s.context[i].entered) && unchangedmap(s.context[i].vars)) && forall(i, 0, len(s.context), old(s.context)[i].vars == old(s.context[i].vars)) && otherarraysunchanged(s.context) && (base(s.context) == old(base(s.context)) || base(s.context) >= old(allocmark()))
 //@   nosafety
 //@ func (*state).evalFunc
 //@   like stateMethod
-//@   trustedensures[frames-kept;C02] len(s.context) == old(len(s.context)) && forall(i, 0, len(s.context), s.context[i].vars == old(s.context[i].vars) && unchangedmap(s.context[i].vars)) && forall(i, 0, len(s.context), old(s.context)[i].vars == old(s.context[i].vars))
+//@   trustedensures[frames-kept;C02] len(s.context) == old(len(s.context)) && forall(i, 0, len(s.context), s.context[i].vars == old(s.context[i].vars) && s.context[i].entered == old(s.context[i].entered) && unchangedmap(s.context[i].vars)) && forall(i, 0, len(s.context), old(s.context)[i].vars == old(s.context[i].vars)) && otherarraysunchanged(s.context) && (base(s.context) == old(base(s.context)) || base(s.context) >= old(allocmark()))
 //@   nosafety
 //@   loop 0
 //@     invariant fresh(args) && !isnil(args)
 //@ func (*state).evalDataRef
 //@   like stateMethod
-//@   trustedensures[frames-kept;C02] len(s.context) == old(len(s.context)) && forall(i, 0, len(s.context), s.context[i].vars == old(s.context[i].vars) && unchangedmap(s.context[i].vars)) && forall(i, 0, len(s.context), old(s.context)[i].vars == old(s.context[i].vars))
+//@   trustedensures[frames-kept;C02] len(s.context) == old(len(s.context)) && forall(i, 0, len(s.context), s.context[i].vars == old(s.context[i].vars) && s.context[i].entered == old(s.context[i].entered) && unchangedmap(s.context[i].vars)) && forall(i, 0, len(s.context), old(s.context)[i].vars == old(s.context[i].vars)) && otherarraysunchanged(s.context) && (base(s.context) == old(base(s.context)) || base(s.context) >= old(allocmark()))
 //@   nosafety
 //@ func (*state).eval2def
 //@   like stateMethod
-//@   trustedensures[frames-kept;C02] len(s.context) == old(len(s.context)) && forall(i, 0, len(s.context), s.context[i].vars == old(s.context[i].vars) && unchangedmap(s.context[i].vars)) && forall(i, 0, len(s.context), old(s.context)[i].vars == old(s.context[i].vars))
+//@   trustedensures[frames-kept;C02] len(s.context) == old(len(s.context)) && forall(i, 0, len(s.context), s.context[i].vars == old(s.context[i].vars) && s.context[i].entered == old(s.context[i].entered) && unchangedmap(s.context[i].vars)) && forall(i, 0, len(s.context), old(s.context)[i].vars == old(s.context[i].vars)) && otherarraysunchanged(s.context) && (base(s.context) == old(base(s.context)) || base(s.context) >= old(allocmark()))
 //@   nosafety
 //@ func (*state).evaldef
 //@   like stateMethod
-//@   trustedensures[frames-kept;C02] len(s.context) == old(len(s.context)) && forall(i, 0, len(s.context), s.context[i].vars == old(s.context[i].vars) && unchangedmap(s.context[i].vars)) && forall(i, 0, len(s.context), old(s.context)[i].vars == old(s.context[i].vars))
+//@   trustedensures[frames-kept;C02] len(s.context) == old(len(s.context)) && forall(i, 0, len(s.context), s.context[i].vars == old(s.context[i].vars) && s.context[i].entered == old(s.context[i].entered) && unchangedmap(s.context[i].vars)) && forall(i, 0, len(s.context), old(s.context)[i].vars == old(s.context[i].vars)) && otherarraysunchanged(s.context) && (base(s.context) == old(base(s.context)) || base(s.context) >= old(allocmark()))
 //@   nosafety
 //@ func (*state).at
 //@   like stateMethod
-//@   trustedensures[frames-kept;C02] len(s.context) == old(len(s.context)) && forall(i, 0, len(s.context), s.context[i].vars == old(s.context[i].vars) && unchangedmap(s.context[i].vars)) && forall(i, 0, len(s.context), old(s.context)[i].vars == old(s.context[i].vars))
+//@   trustedensures[frames-kept;C02] len(s.context) == old(len(s.context)) && forall(i, 0, len(s.context), s.context[i].vars == old(s.context[i].vars) && s.context[i].entered == old(s.context[i].entered) && unchangedmap(s.context[i].vars)) && forall(i, 0, len(s.context), old(s.context)[i].vars == old(s.context[i].vars)) && otherarraysunchanged(s.context) && (base(s.context) == old(base(s.context)) || base(s.context) >= old(allocmark()))
 //@   nosafety
 
 // The builtin functions and directives (the default contents of the registries)
